@@ -59,6 +59,8 @@ def gen_cases(tier, seed):
                 "reject_exc": rng.choice(["PermissionError", "FileNotFoundError"]),
                 "reject_create": (not weak) and rng.random() < 0.03,
                 "cancel": None if rng.random() < 0.9 else [rng.choice(["S", "D"]), rng.randrange(1, 12)]}
+        if rng.random() < 0.1:
+            case["busy_put"] = rng.randrange(0, 10)  # a (refused) put request towards another entity while the transfer is running
         if rng.random() < 0.2:
             # a long-lived entity: several transfers to the same destination path through the same handlers, user and filestore objects;
             # the same or new content each time
@@ -124,6 +126,8 @@ def run_case(case):
         actions = {}
         if case["cancel"]:
             actions[case["cancel"][1]] = [("cancel", case["cancel"][0])]
+        if case.get("busy_put") is not None:
+            actions.setdefault(case["busy_put"], []).insert(0, ("put_third",))
         r = Runner(w, plan=plan, max_expiries=40, max_rounds=3000, actions=actions)
         internal = None
         applied = []
